@@ -223,3 +223,25 @@ def run(ctx):
     tg = src(gm)
     ok = "insert.update(update)" in tg and "setattr(row, key, value)" in tg and "Model(**insert)" in tg
     r3.check(ok, "redun/db_utils.py:get_or_create", "get_or_create does not apply the update dict both to new and to existing rows (re-deriving an invalidated state would not make it valid again)", "redun/db_utils.py", gm.lineno)
+
+    # ---- C25.4 fork lineage survives the trip through a process / remote executor ----------------
+    # advance_handle derives the (fork parent -> fork) edge from two in-memory fields: fork_parent and is_recorded.  A Handle that comes back from a
+    # task run by an executor that pickles results has lost the first (not part of HandleInfo.get_state) and has the second forced to True by
+    # Handle.__setstate__, so an explicit fork made inside such a task reaches advance_handle looking like an already recorded, parentless state.
+    r4 = ctx.rule("C25.4", "the fields advance_handle derives fork edges from survive pickling, or advance_handle has a fallback for unpickled forks", floor=1)
+    gs = hm.func("Handle.HandleInfo.get_state") if "Handle.HandleInfo.get_state" in hm.funcs else next((f for q, f in hm.funcs.items() if q.endswith("HandleInfo.get_state")), None)
+    if gs is None:
+        raise AnalysisError("HandleInfo.get_state not found", "HandleInfo.get_state")
+    keys = {k.value for n in ast.walk(gs) if isinstance(n, ast.Dict) for k in n.keys if isinstance(k, ast.Constant)}
+    ss = next((f for q, f in hm.funcs.items() if q.endswith("Handle.__setstate__")), None)
+    forces_recorded = ss is not None and any(isinstance(a, ast.Assign) and src(a.targets[0]).endswith(".is_recorded") and src(a.value) == "True" for a in ast.walk(ss))
+    fallback = "call_hash" in src(ah) and any(isinstance(c, ast.Compare) or isinstance(c, ast.BoolOp) for c in ast.walk(ah) if "fork_parent" in src(c) and "call_hash" in src(c))
+    r4.check(
+        "fork_parent" in keys or not forces_recorded or fallback,
+        f"{hm.rel}:Handle.__setstate__:fork-lineage-lost",
+        "HandleInfo.get_state does not serialise fork_parent and Handle.__setstate__ sets is_recorded = True: `step(conn.fork('a'), 1)` returned by a task run with executor='process' (any executor that pickles "
+        "results) reaches advance_handle as a recorded, parentless state, no parent->fork HandleEdge is written, and rolling back an ancestor leaves the fork's descendants valid -- after editing and reverting an "
+        "upstream task the stale cached state is replayed (the thread executor handles the same history correctly)",
+        hm.rel,
+        ss.lineno if ss is not None else gs.lineno,
+    )
